@@ -6,7 +6,7 @@ from ..core import Machinery
 
 OLD, NEW = "v1.2.3-beta", "v1.2.4-beta"
 VP = "vMAJOR.MINOR.PATCH[-TAG]"
-HOSTILE = ["'", '"', "\\", " ", "$HOME", "`id`", "-", "--amend", "\n", "é", "e\u0301", "\u212b", "☃", ";", "&&", "|", "#", "%s", "~", "*", "(", ")", "!", "\t", "''", "' --amend '", "$(x)"]
+HOSTILE = ["'", '"', "\\", " ", "100%", "%%", "%(asctime)s", "$HOME", "`id`", "-", "--amend", "\n", "é", "e\u0301", "\u212b", "☃", ";", "&&", "|", "#", "%s", "~", "*", "(", ")", "!", "\t", "''", "' --amend '", "$(x)"]
 WORDS = ["bump", "version", "release", "to", "from", "OLD", "NEW", "xOLD", "NEWx", "{new_version}", "{old_version}", "{new_version_pep440}", "{old_version_pep440}", "{{", "}}", "v"]
 
 
@@ -62,7 +62,12 @@ def case(job):
             extra["tag_message"] = "" if light else tt
         elif empty_t:
             extra["tag_message"] = "configured tag message {new_version} that the command line overrides"
-        proj.write("bumpver.toml", project.bumpver_toml(OLD, VP, [(n, ["{version}"]) for n in names], commit=True, tag=True, push=True, extra=extra))
+        # a third of the projects keep their configuration in setup.cfg (INI syntax: one-line values; the reader must hand them on untouched - a % is just a %)
+        use_cfg = seed % 3 == 1 and not any("\n" in v for v in extra.values())
+        if use_cfg:
+            proj.write("setup.cfg", project.setup_cfg(OLD, VP, [(n, ["{version}"]) for n in names], commit=True, tag=True, push=True, extra=extra, quote=False))
+        else:
+            proj.write("bumpver.toml", project.bumpver_toml(OLD, VP, [(n, ["{version}"]) for n in names], commit=True, tag=True, push=True, extra=extra))
         for n in names:
             proj.write(n, "version %s\n" % OLD)
         args = ["update", "--patch", "--no-fetch"]
@@ -101,7 +106,7 @@ def case(job):
             ev["values"] = dict(remote=glue.cp("origin"))
         ev["dbg"] = "%s %s argv=%r | commit tmpl(%s)=%r tag tmpl(%s)=%r files=%r" % (tool, e[1], argv, "cli" if cli_c else "cfg", tc, "cli" if cli_t else "cfg", tt, names)
         evs.append(ev)
-    facts = dict(unknown_cmds=[e[2] for e in raw if e[0] == "cmd" and e[1] == "unknown"], seed=seed, tool=tool, exit=r.exit, exc=r.exc or "", names=names, added=sorted(added), tc=tc, tt=tt, cli_c=cli_c, cli_t=cli_t, light=light,
+    facts = dict(cfgfile="setup.cfg" if use_cfg else "bumpver.toml", unknown_cmds=[e[2] for e in raw if e[0] == "cmd" and e[1] == "unknown"], seed=seed, tool=tool, exit=r.exit, exc=r.exc or "", names=names, added=sorted(added), tc=tc, tt=tt, cli_c=cli_c, cli_t=cli_t, light=light,
                  empty_cli_template=empty_c or empty_t, annotated_tag_despite_empty_template=(light or empty_t) and any(e["name"] == "tag" for e in evs),
                  n_cmds=len(evs), quote=any(q in (tc + tt + "".join(names)) for q in "'\"\\"))
     return evs, facts
@@ -197,7 +202,7 @@ def run(ctx):
             if bad_tmpl:
                 continue          # a template outside the documented placeholders is refused before anything is staged
             ctx.violation(dict(clause="argv:crash-while-building-command", has_quote_or_backslash=f["quote"], exc=f["exc"].split(":")[0]), case=f)
-        elif complete and sorted(f["added"]) != sorted(f["names"] + ["bumpver.toml"]) and sorted(f["added"]) != sorted(f["names"]):
+        elif complete and sorted(f["added"]) != sorted(f["names"] + [f["cfgfile"]]) and sorted(f["added"]) != sorted(f["names"]):
             ctx.violation(dict(clause="argv:staged-paths-differ-from-configured"), case=f)
     ctx.count("runs", len(results))
     ctx.count("runs_with_empty_cli_template", sum(1 for _e, f in results if f["empty_cli_template"]))
